@@ -514,6 +514,47 @@ def built_structs(facts, R, body, adt):
     for x in pat.aggregates(body, adt):
         found = True
         yield x
+    # built inside a closure created here (`flag.then(|| Metadata { .. })`): the fields are captured variables of this body
+    v0 = None
+    for clo in facts.closures_of(body.path):
+        if clo.j.get("parent") != body.path:
+            continue
+        caggs = list(pat.aggregates(clo, adt))
+        if not caggs:
+            continue
+        site = [(bi, si, st) for bi, si, st in pat.stmts(body) if st["rv"]["k"] == "aggregate" and st["rv"].get("agg") == "closure"
+                and st["rv"].get("closure") == clo.path]
+        if len(site) != 1:
+            continue
+        cbi, csi, cst = site[0]
+        vc = Vals(clo)
+        for _bj, _sj, ast_ in caggs:
+            rv = ast_["rv"]
+            fields, ops = [], []
+            for fld, op in zip(rv["fields"], rv["ops"]):
+                r = vc.root(op) if op["k"] in ("copy", "move") else None
+                if r is None or r.kind != "arg" or r.base[1] != 1 or not r.path:
+                    continue
+                cap_names = [c_.get("name") for c_ in (clo.j.get("captures") or [])]
+                try:
+                    ci = int(r.path[0])
+                except (TypeError, ValueError):
+                    if r.path[0] in cap_names and cap_names.count(r.path[0]) == 1:
+                        ci = cap_names.index(r.path[0])
+                    else:
+                        continue
+                if ci >= len(cst["rv"]["ops"]):
+                    continue
+                cap = cst["rv"]["ops"][ci]
+                if cap["k"] not in ("copy", "move"):
+                    continue
+                rest = [p_ for p_ in r.path[1:] if isinstance(p_, str) and not p_.startswith("as:")]
+                proj = list(cap["place"]["p"]) + [{"k": "deref"}] * 0 + [{"k": "field", "name": n_} for n_ in rest]
+                fields.append(fld)
+                ops.append({"k": "copy", "place": {"l": cap["place"]["l"], "p": proj}})
+            found = True
+            yield cbi, None, {"k": "assign", "place": cst["place"], "span": ast_.get("span"),
+                              "rv": {"k": "aggregate", "agg": "adt", "adt": rv["adt"], "variant": rv.get("variant"), "fields": fields, "ops": ops}}
     if found:
         return
     for bi, t, cb in R.local_callees(body):
@@ -524,12 +565,28 @@ def built_structs(facts, R, body, adt):
         if len(aggs) != 1:
             continue
         vc = Vals(cb)
+        vb = Vals(body)
         rv = aggs[0][2]["rv"]
         fields, ops = [], []
+        chained = False
         for fld, op in zip(rv["fields"], rv["ops"]):
-            r = vc.root(op) if op["k"] in ("copy", "move") else None
-            if r is not None and r.kind == "arg" and not r.path and 1 <= r.base[1] <= len(t["args"]):
+            r = vc.deep_root(op) if op["k"] in ("copy", "move") else None
+            if r is not None and r.kind == "arg" and 1 <= r.base[1] <= len(t["args"]) and all(isinstance(p_, str) and not p_.startswith("as:") for p_ in r.path):
+                ca = t["args"][r.base[1] - 1]
+                if r.path:
+                    if ca["k"] not in ("copy", "move"):
+                        continue
+                    ca = {"k": "copy", "place": {"l": ca["place"]["l"], "p": list(ca["place"]["p"]) + [{"k": "field", "name": n_} for n_ in r.path]}}
+                # a value that itself comes out of another constructor of this struct (`new(..).with_metadata(..)`) cannot be followed here
+                if ca["k"] in ("copy", "move"):
+                    rr = vb.deep_root(ca)
+                    if rr.kind == "call":
+                        cb2 = R.body_of_callee(body.blocks[rr.base[1]]["term"].get("callee"))
+                        if cb2 is not None and (cb2.local_ty(0) == rty):
+                            chained = True
                 fields.append(fld)
-                ops.append(t["args"][r.base[1] - 1])
+                ops.append(ca)
+        if chained or len(fields) != len(rv["fields"]):
+            continue      # incomplete view of the struct: leave it to the helper-inlining normal form
         yield bi, None, {"k": "assign", "place": t["dest"], "span": t.get("span"),
                          "rv": {"k": "aggregate", "agg": "adt", "adt": rv["adt"], "variant": rv.get("variant"), "fields": fields, "ops": ops}}
